@@ -76,6 +76,19 @@ def analyse_adapter(path):
             "calls_on_enq_if_idle": "if not self.protocol.in_transfer_state:" in src and "self.protocol.on_enq(ENQ)" in src}
 
 
+def strptime_formats_of(path):
+    with open(path, encoding="utf-8") as fh:
+        tree = ast.parse(fh.read())
+    out = []
+    for node in ast.walk(tree):
+        if isinstance(node, ast.Call) and ast.unparse(node.func).endswith("strptime") and len(node.args) == 2:
+            try:
+                out.append(ast.literal_eval(node.args[1]))
+            except Exception:
+                out.append("<non-literal>")
+    return out
+
+
 def lean_piece(kind, val, info, groups):
     if kind == "lit":
         return "(.lit %s)" % ("[" + ", ".join(str(b) for b in val.encode("utf-8")) + "]")
@@ -99,10 +112,37 @@ def gen_vendor(repo, info):
     _import_repo(repo)
     for short, rel, modname in (("mini_vidas", "biomerieux/mini_vidas.py", "senaite.astm.adapters.biomerieux.mini_vidas"),
                                 ("se1520", "spotchem/se1520.py", "senaite.astm.adapters.spotchem.se1520")):
-        a = analyse_adapter(os.path.join(src, rel))
+        try:
+            a = analyse_adapter(os.path.join(src, rel))
+        except Exception as exc:
+            a = {"templates": [], "var_group": {}, "strptime": [], "envelope": None, "messages_assigned": False,
+                 "calls_on_eot": False, "calls_on_enq_if_idle": False, "error": repr(exc)}
+        if a["strptime"] == []:
+            a["strptime"] = strptime_formats_of(os.path.join(src, rel))
         mod = importlib.import_module(modname)
         groups = dict(re.compile(mod.RX).groupindex)
         tl = []
+        how = "ast"
+        if not a["templates"] or not (a["messages_assigned"] and a["calls_on_eot"] and a["calls_on_enq_if_idle"]) \
+                or a["envelope"] is None:
+            # the source does not have the shape the AST extraction recognises: recover the templates and the glue by
+            # running the adapter on sentinel values (validated on generated lines by the correspondence stream)
+            import vendor_observe
+            ob = vendor_observe.observe_adapter(mod)
+            how = "observed"
+            for pieces in ob["templates"]:
+                ps = []
+                for pc in pieces:
+                    if pc[0] == "lit":
+                        ps.append("(.lit [%s])" % ", ".join(str(b) for b in pc[1]))
+                    elif pc[0] == "grp":
+                        ps.append("(.grp %d %s)" % (pc[1], "true" if pc[1] in ob["float_groups"] else "false"))
+                    else:
+                        ps.append("." + pc[0])
+                tl.append("[" + ", ".join(ps) + "]")
+            a = dict(a, templates=[], envelope="{STX}{frame}{cs}{CRLF}" if ob["envelope_ok"] else None,
+                     messages_assigned=ob["glue"][0], calls_on_eot=ob["glue"][1], calls_on_enq_if_idle=ob["glue"][2])
+            observed_templates = ob["templates"]
         for tmpl, kw, star in a["templates"]:
             ps = []
             for kind, val in pieces_of(tmpl):
@@ -124,6 +164,7 @@ def gen_vendor(repo, info):
                         p = "(.unmodelled %s)" % lean_str(val)
                 ps.append(p)
             tl.append("[" + ", ".join(ps) + "]")
+        lines.append("-- templates and glue obtained by: %s" % how)
         lines.append("def %s_templates : List (List Piece) := [" % short)
         lines.append(",\n".join("  " + t for t in tl))
         lines.append("]")
@@ -133,7 +174,8 @@ def gen_vendor(repo, info):
             short, "true" if a["messages_assigned"] else "false", "true" if a["calls_on_eot"] else "false",
             "true" if a["calls_on_enq_if_idle"] else "false"))
         lines.append("")
-        vinfo[short] = {"templates": [t[0] for t in a["templates"]], "var_group": a["var_group"], "strptime": a["strptime"]}
+        vinfo[short] = {"templates": [t[0] for t in a["templates"]], "var_group": a["var_group"], "strptime": a["strptime"],
+                        "how": how}
     lines += ["end Astm.Gen", ""]
     info["vendor"] = vinfo
     return {"Vendor.lean": "\n".join(lines)}
